@@ -233,7 +233,7 @@ impl TransactionBuilder {
       .to_sat();
 
     if self.outgoing.offset >= amount {
-      return Err(Error::OutOfRange(self.outgoing, amount - 1));
+      return Err(Error::OutOfRange(self.outgoing, amount.saturating_sub(1)));
     }
 
     self.utxos.remove(&self.outgoing.outpoint);
